@@ -226,13 +226,7 @@ def precalc_zone(P):
         return hf
     periods = z._PrecalculatedDateTimeZone__periods
     tail_start = z._PrecalculatedDateTimeZone__tail_zone_start
-    # finite per-period facts (concrete)
-    for a, b in zip(periods, periods[1:]):
-        assert a._raw_end == b._raw_start, "periods do not abut"
-        assert (a.name, a.wall_offset, a.savings) != (b.name, b.wall_offset, b.savings), "adjacent periods identical"
-    for p in periods:
-        assert z.min_offset <= p.wall_offset <= z.max_offset
-        assert p.wall_offset == p.standard_offset + p.savings
+    # (the finite per-period facts - abutting, distinct neighbours, offsets within the advertised min/max - are premise_zone_tables)
     hi_days = tail_start._days_since_epoch if tail_start._is_valid else IMAX
     starts = [(_tot(p._raw_start) if p.has_start else None) for p in periods]
 
@@ -254,6 +248,51 @@ def precalc_zone(P):
         hi_ok = idx + 1 == len(periods) or t < starts[idx + 1]
         return lo_ok and hi_ok
     return h
+
+
+@lemma({"o0": int, "o1": int, "o2": int, "s0": int, "s1": int, "s2": int}, budget=90, per_path=30,
+       bounds="_PrecalculatedDateTimeZone over three periods with ANY wall offsets in +-18h and ANY savings in +-2h (no tail): the advertised "
+              "min_offset / max_offset are exactly the smallest / largest WALL offset of the periods")
+def precalc_min_max(o0, o1, o2, s0, s1, s2):
+    O, S = [o0, o1, o2], [s0, s1, s2]
+    for o in O:
+        assume(-64800 <= o <= 64800)
+    for sv in S:
+        assume(-7200 <= sv <= 7200)
+    b1, b2 = 0, 400 * NPD
+    per = [symzone._fast_interval("p0", None, b1, O[0], S[0]), symzone._fast_interval("p1", b1, b2, O[1], S[1]),
+           symzone._fast_interval("p2", b2, None, O[2], S[2])]
+    z = _PrecalculatedDateTimeZone("z", per, None)
+    return z.min_offset.seconds == min(O) and z.max_offset.seconds == max(O)
+
+
+@lemma(premise=True, params=lambda tier, seed: [tier], budget=600)
+def premise_zone_tables(P):
+    """Finite facts about the stored period tables of the provider's zones (concrete; quick: every 5th zone id, thorough: all): stored
+    periods abut, neighbours differ in name or offsets, wall = standard + savings, and every wall offset lies within the zone's advertised
+    [min_offset, max_offset] (for zones with a tail: also the tail's two offsets)."""
+    from pyoda_time.time_zones._cached_date_time_zone import _CachedDateTimeZone
+    ids = sorted(DateTimeZoneProviders.tzdb.ids)
+    ids = ids if P == "thorough" else ids[::5] + ["Europe/London", "Asia/Tokyo", "America/St_Johns", "Africa/Windhoek", "Australia/Sydney"]
+    bad = []
+    for zid in ids:
+        zone = DateTimeZoneProviders.tzdb[zid]
+        z = zone._time_zone if isinstance(zone, _CachedDateTimeZone) else zone
+        if not isinstance(z, _PrecalculatedDateTimeZone):
+            continue
+        periods = z._PrecalculatedDateTimeZone__periods
+        for a, b in zip(periods, periods[1:]):
+            if a._raw_end != b._raw_start:
+                bad.append(f"{zid}: periods do not abut at {a._raw_end}")
+            if (a.name, a.wall_offset, a.savings) == (b.name, b.wall_offset, b.savings):
+                bad.append(f"{zid}: adjacent periods identical at {b._raw_start}")
+        for p in periods:
+            if not (zone.min_offset <= p.wall_offset <= zone.max_offset):
+                bad.append(f"{zid}: wall offset {p.wall_offset.seconds}s of {p.name} outside advertised [{zone.min_offset.seconds}, {zone.max_offset.seconds}]")
+                break
+            if p.wall_offset != p.standard_offset + p.savings:
+                bad.append(f"{zid}: wall != standard + savings in {p.name}")
+    return (not bad), (f"violations: {bad[:6]}" if bad else f"{len(ids)} zone ids: stored period tables consistent with the advertised offsets")
 
 
 # ------------------------------------------------------------------------------------------------ the zone as served (cached)
